@@ -1015,16 +1015,33 @@ func (s *Server) handleDecline(req *dhcpv4.DHCPv4) {
 		zap.String("ip", declinedIP.String()),
 	)
 
-	// Mark IP as unavailable in pool
+	// A client can only decline the address this server gave it: the address
+	// of its lease or, before any lease exists, the address offered to it.
 	s.leasesMu.Lock()
 	lease, exists := s.leases[mac.String()]
+	if exists && !lease.IP.Equal(declinedIP) {
+		// Not the address of the client's lease: the lease stays
+		lease, exists = nil, false
+	}
 	if exists {
 		delete(s.leases, mac.String())
 	}
 	s.leasesMu.Unlock()
 
-	if exists && lease != nil {
+	if !exists {
+		// Declined straight after the OFFER: give up the allocation made for
+		// this client in DISCOVER (Pool.Decline ignores any other address)
+		if pool := s.poolMgr.ClassifyClient(mac); pool != nil {
+			pool.Decline(mac, declinedIP)
+		}
+		return
+	}
+
+	if lease != nil {
+		// Drop the client's pool allocation (otherwise its next DISCOVER is
+		// offered the declined address again) and mark the IP as unavailable
 		if pool := s.poolMgr.GetPool(lease.PoolID); pool != nil {
+			pool.Decline(mac, declinedIP)
 			pool.MarkUnavailable(declinedIP)
 		}
 
